@@ -118,6 +118,7 @@ func verif_sameArray[T any](a, b []T) bool {
 	return cap(a) > 0 && cap(b) > 0 && &a[:1][0] == &b[:1][0]
 }
 func verif_unfold[T any](x T) bool { return true }
+func verif_same[T any](a, b T) bool { return any(a) == any(b) }
 
 func verif_callPanicked[F any](f F) bool { return false }
 func verif_callReturned[F any](f F) bool { return false }
